@@ -211,7 +211,7 @@ func Observe(o any) (r Obs) {
 		}
 	}()
 	ob := o.(observer)
-	r.Score = ob.Score()
+	r.Score = ob.Score() + 0
 	r.Sev, r.SevN = Severity(o)
 	ge := ob.GetError()
 	r.GetErr = Class(ge)
@@ -250,7 +250,9 @@ func Severity(o any) (string, int) {
 }
 
 // Score returns o.Score().
-func Score(o any) float64 { return o.(observer).Score() }
+// Score returns the score with the sign of a zero dropped (-0 == 0: the v2 base equation yields
+// -0 for a vector without impact; a result that differs only in that sign is the same result).
+func Score(o any) float64 { return o.(observer).Score() + 0 }
 
 // Sub returns the embedded view of o at a lower level through the accessor methods
 // (BaseMetrics / TemporalMetrics); level == own level returns o itself.  The result is a typed
